@@ -1,0 +1,23 @@
+//go:build verif
+// +build verif
+
+package bundler
+
+// Verification hook (add-only, only compiled with -tags verif) for the /verif kernel `smchunk`.
+
+import (
+	"github.com/evanw/esbuild/internal/config"
+	"github.com/evanw/esbuild/internal/graph"
+)
+
+// VerifComputeDataForSourceMaps runs the real computeDataForSourceMapsInParallel on a bundle made of the
+// given input files (all of them reachable) and waits for the result.
+func VerifComputeDataForSourceMaps(options *config.Options, files []graph.InputFile) []DataForSourceMap {
+	b := &Bundle{files: make([]scannerFile, len(files))}
+	reachable := make([]uint32, len(files))
+	for i, f := range files {
+		b.files[i].inputFile = f
+		reachable[i] = uint32(i)
+	}
+	return b.computeDataForSourceMapsInParallel(options, reachable)()
+}
